@@ -138,19 +138,33 @@ func (vc *VC) loopModifies(li *loopInfo) (heaps map[string]bool, ghosts map[stri
 				} else if f, ok := c.Value.(*ssa.Function); ok {
 					fc = vc.w.contractFor(f)
 				}
-				if fc == nil || len(fc.Assigns) == 0 {
-					all = true
-					continue
+				var fcs []*FuncContract
+				if fc != nil && len(fc.Dispatch) > 0 {
+					for _, d := range fc.Dispatch {
+						if f := vc.w.fnByKey[fc.Pkg+"::"+d]; f != nil {
+							fcs = append(fcs, vc.w.contractFor(f))
+						} else {
+							fcs = append(fcs, nil)
+						}
+					}
+				} else {
+					fcs = []*FuncContract{fc}
 				}
-				hs, gs, every := vc.assignsHeaps(fc)
-				if every {
-					all = true
-				}
-				for h := range hs {
-					heaps[h] = true
-				}
-				for g := range gs {
-					ghosts[g] = true
+				for _, fc := range fcs {
+					if fc == nil || len(fc.Assigns) == 0 {
+						all = true
+						continue
+					}
+					hs, gs, every := vc.assignsHeaps(fc)
+					if every {
+						all = true
+					}
+					for h := range hs {
+						heaps[h] = true
+					}
+					for g := range gs {
+						ghosts[g] = true
+					}
 				}
 			}
 		}
